@@ -583,3 +583,125 @@ def base_locals(fn, op):
 def user_locals(fn, op):
     """base_locals restricted to locals that carry a user variable (debug info), i.e. not compiler temporaries."""
     return {l for l in base_locals(fn, op) if fn.local_name(l)}
+
+
+# ------------------------------------------------------------------------------------------------
+# implicit-bounds audit (engine/blue/bounds.py)
+
+def bounds_audit(ctx, rule, fns, exceptions=None, elem=None, skip=None, invariants=()):
+    """Every slice/array/Vec index or range-slice site in `fns` is provably in range (dominating comparison with the
+    length of the *same* buffer, loop/position construction, fixed array length) or listed in `exceptions`:
+      {(fn skey, 'index'|'range'): (count, why)}   -- at most `count` unproved sites of that kind in that function.
+    elem: regex on the element type to restrict the audit (e.g. r'^u8$' = raw byte buffers)."""
+    from blue import bounds as B
+    exceptions = exceptions or {}
+    erx = re.compile(elem) if elem else None
+    srx = re.compile(skip) if skip else None
+    n = proved = 0
+    used = set()
+    for fn in sorted(fns, key=lambda f: f.key):
+        if srx is not None and srx.search(fn.skey):
+            continue
+        bf = B.BF(ctx.prog, fn, invariants)
+        open_sites = {}
+        for s in bf.sites():
+            if erx is not None and not erx.search(s.get("elem") or ""):
+                continue
+            n += 1
+            res = bf.decide(s)
+            if all(j for _w, j in res):
+                proved += 1
+                ctx.ok(rule, fn, "in range: %s (%s)" % (B.named(fn, s["obl"][0][0]), "; ".join("%s: %s" % (w, j) for w, j in res))[:300], [s["pt"]])
+            else:
+                open_sites.setdefault(s["kind"], []).append((s, res))
+        for kind, lst in sorted(open_sites.items()):
+            exc = exceptions.get((fn.skey, kind))
+            if exc and len(lst) <= exc[0]:
+                used.add((fn.skey, kind))
+                ctx.exception(rule, fn.skey, kind, exc[1])
+                for s, res in lst:
+                    ctx.ok(rule, fn, "excepted %s site (%s)" % (kind, exc[1]), [s["pt"]])
+                continue
+            if exc:
+                used.add((fn.skey, kind))
+            for s, res in lst:
+                missing = [w for w, j in res if not j]
+                facts = ["%s %s %s" % (B.named(fn, a), op, B.named(fn, b)) for (a, op, b, _e) in bf.dominating_facts(s["pt"])
+                         if op in ("<", "<=") or (op == "==" and a[0] != "pl")][:4]
+                ctx.violate(rule, fn, kind,
+                            "implicit bounds check can fail: `%s` needs %s, which no dominating comparison on the same buffer establishes "
+                            "(facts in force: %s)%s" % (describe_site(fn, s), " and ".join(missing), facts or "none",
+                                                         "; %d such sites here, %d excepted (%s)" % (len(lst), exc[0], exc[1]) if exc else ""),
+                            pt=s["pt"])
+    for k in exceptions:
+        if k not in used:
+            ctx.notes.append("%s: bounds exception %s no longer matches any site" % (rule, k))
+    return n, proved
+
+
+def describe_site(fn, s):
+    from blue import bounds as B
+    ln = s["len"]
+    buf = B.named(fn, ln[1]) if ln[0] == "len" else "[_; %s]" % B.named(fn, ln)
+    obl = s["obl"]
+    if s["kind"] == "index":
+        return "%s[%s]" % (buf, B.named(fn, obl[0][0]))
+    what = {o[3]: o for o in obl}
+    if "start <= end" in what:
+        return "%s[%s..%s]" % (buf, B.named(fn, what["start <= end"][0]), B.named(fn, what["start <= end"][2]))
+    if "end <= len" in what:
+        return "%s[..%s]" % (buf, B.named(fn, what["end <= len"][0]))
+    if "start <= len" in what:
+        return "%s[%s..]" % (buf, B.named(fn, what["start <= len"][0]))
+    return "%s[%s]" % (buf, ", ".join(B.named(fn, o[0]) for o in obl))
+
+
+def le_len_invariant(ctx, rule, owner_rx, field, buf, crates, floor=2):
+    """Type invariant  x.field <= x.buf.len()  for values of a type matching owner_rx: every statement that writes the
+    field stores a value proved <= len of the same value's buffer (assuming the invariant before the write and the
+    guards that dominate it); constructors initialise it in range; the buffer field is written by constructors only."""
+    from blue import bounds as B
+    inv = [(owner_rx, field, buf)]
+    n = 0
+    for f in sorted(ctx.prog.fns.values(), key=lambda f: f.key):
+        if f.crate not in crates:
+            continue
+        w = P.field_writes(f, owner_rx, field)
+        wb = P.field_writes(f, owner_rx, buf)
+        for pt in wb:
+            ctx.violate(rule, f, "buffer-rewritten", "%s.%s is reassigned outside a constructor: the invariant %s <= %s.len() is not inductive" % (owner_rx, buf, field, buf), pt=pt)
+        bf = None
+        for pt in w:
+            st = f.blocks[pt[0]].st[pt[1]] if pt[1] < len(f.blocks[pt[0]].st) else None
+            n += 1
+            if st is None or st["rv"]["r"] not in ("use",):
+                ctx.violate(rule, f, "index-write", "%s is written by a construct the invariant rule cannot evaluate" % field, pt=pt)
+                continue
+            bf = bf or B.BF(ctx.prog, f, inv)
+            val = bf.op_term(st["rv"]["a"])
+            base = bf.place_term({"l": st["lhs"]["l"], "p": st["lhs"]["p"][:-1]})
+            if base[0] != "pl":
+                ctx.violate(rule, f, "index-write", "the owner of %s is not a plain place" % field, pt=pt)
+                continue
+            ln = ("len", ("pl", base[1], base[2] + (buf,)))
+            why = bf.prove(val, False, ln, pt)
+            ctx.check(rule, f, "index-write", bool(why), "%s = %s keeps %s <= %s.len() (%s)" % (field, B.named(f, val), field, buf, why),
+                      "`%s = %s` is not shown to keep %s <= %s.len(): the next slice of the buffer at %s can be out of range" % (
+                          field, B.named(f, val), field, buf, field), pt=pt)
+        # constructors
+        for b in f.blocks:
+            for i, st in enumerate(b.st):
+                rv = st.get("rv", {})
+                if st["s"] == "=" and rv.get("r") == "agg" and re.search(owner_rx, strip_generics(rv.get("adt", ""))) and field in rv.get("fields", []):
+                    n += 1
+                    if (f.impl_trait or "").endswith("clone::Clone") and f.name == "clone":
+                        ctx.ok(rule, f, "Clone copies a value for which the invariant already holds", [(b.idx, i)])
+                        continue
+                    bf = bf or B.BF(ctx.prog, f, inv)
+                    val = bf.op_term(rv["ops"][rv["fields"].index(field)])
+                    bufop = rv["ops"][rv["fields"].index(buf)]
+                    why = bf.prove(val, False, ("len", bf.root(bufop)), (b.idx, i))
+                    ctx.check(rule, f, "index-init", bool(why), "constructed with %s = %s (%s)" % (field, B.named(f, val), why),
+                              "constructed with %s = %s, not shown to be within %s" % (field, B.named(f, val), buf), pt=(b.idx, i))
+    ctx.floor(rule, "writes of %s.%s" % (owner_rx, field), n, floor)
+    return inv
